@@ -865,6 +865,15 @@ def step (st : State) (toks : List String) : State × String :=
     match id.toNat? with
     | some id => let o := localStep st.ovl (.expire id); ({ st with ovl := o }, showStore o)
     | none => (st, "bad-op")
+  -- `h.race <tree A> <tree B> <rounds>`: the server waits for A's id; A's description and B's description under A's
+  -- id are answered at the same time, `rounds` times over; whichever the server stores first stays (a handler is one
+  -- step of this model); afterwards the id is released again — what remains to observe is the store without it
+  | ["h.race", a, b, n] =>
+    match a.toNat?.bind (lookup st.trees), b.toNat?.bind (lookup st.trees), n.toNat? with
+    | some ta, some tb, some n =>
+      if n > 2000 ∨ ta.roster.isNone ∨ tb.roster.isNone then (st, "bad-op")
+      else let o := localStep st.ovl (.expire ta.id); ({ st with ovl := o }, showStore o)
+    | _, _, _ => (st, "bad-op")
   | ["h.register", l] =>
     match l.toNat?.bind (lookup st.trees) with
     | some t => let o := localStep st.ovl (.register t); ({ st with ovl := o }, showStore o)
